@@ -27,7 +27,7 @@ var FloatPool = []float64{0, math.Copysign(0, -1), 1, -1, 0.5, -0.5, 1.5, 2, 3, 
 var StringPool = []string{"", "a", "b", "c", "A", "B", "ab", "abc", "abd", "Ab", "aB", "b a", " a", "a ", " ", "a,b", "a;b", "a\tb", `a"b`, `"`, `""`, `"a"`, `'a'`,
 	"line\nfeed", "\n", "x\n", "\x00", "a\x00b", "é", "É", "ü", "日本", "日本語", "\xff", "a\xffb", "\xc3", "\xe2\x82", "ı", "İ", "ß", "ſ", "ǅ", "K", "ɐ", "ⱥ",
 	"\u0080", "a\u0080", " ", " ", "null", "NULL", "NaN", "0", "1", "-1", "1.5", "true", "false", "t", `\`, `\.`, `a\`, "%", "a%", "%a", "a.b", "a*", "[a]",
-	"zzzzzzzzzzzzzzzzzzzzzzzzzzzzzzzzzzzzzzzzzzzzzzzz", "\uFFFD", "a\uFFFDb", "const-temp-0", "$x", "0x10", "1e3", "+1", " 1", "∞", "𝔘", "\U0010ffff"}
+	"zzzzzzzzzzzzzzzzzzzzzzzzzzzzzzzzzzzzzzzzzzzzzzzz", "ɐɐɐɐɐɐɐab", "xɐɑɒȿɀɫɽɱɐɑɒȿɀɫɽɱɐɑɒȿɀɫɽɱ z", "\uFFFD", "a\uFFFDb", "const-temp-0", "$x", "0x10", "1e3", "+1", " 1", "∞", "𝔘", "\U0010ffff"}
 
 // StringPoolCR holds strings with carriage returns.
 var StringPoolCR = []string{"a\rb", "\r", "a\r\nb", "x\r"}
